@@ -378,4 +378,6 @@ def run(ctx, progs):
         r3_drop_glue(ctx, P)
         r4_commit_forms(ctx, P, D)
         r5_direction_after_prepare(ctx, P)
+        from . import c17
+        c17.r2_forwarding_impls(ctx, P, R="C15.R6")
     ctx.config = None
